@@ -84,7 +84,7 @@ def gen_gen_cases(rng, tier):
                     cases.append({"kind": "gen", "cls": "exh", "off": off, "used": used, "ops": [list(o) for o in seq]})
     # longer all-alloc / free sequences over a smaller alphabet
     alpha2 = [[0], [1, M], [1, 1], [2, 2]]
-    L2 = 5 if tier == "quick" else 7
+    L2 = 5 if tier == "quick" else 6
     for off in (M - 2, M - 1):
         for used in ([], [M - 1], [M - 1, 0], [0, 1]):
             for seq in itertools.product(alpha2, repeat=L2):
@@ -575,7 +575,7 @@ def run(tier, seed, replay=None):
         "the random source is an arbitrary stream of draws; PDR parsing is abstracted to ok / fails; Session Modification is outside the establishment model",
         "TEID exhaustion (2^32-1 ids held) is covered by the theorems only: it cannot be produced on the implementation"]
     ck.rule = ("gen: all op sequences <= L over {Allocate, FreeID x3, IsAllocated x2} from every cursor in {2^32-4..2^32-2, 0, 1} x every subset of the "
-               "offsets {2^32-3, 2^32-2, 0} (L=3 quick, 4 thorough), all sequences of length 5 (7) over a 4-letter alphabet at the wrap, used runs of "
+               "offsets {2^32-3, 2^32-2, 0} (L=3 quick, 4 thorough), all sequences of length 5 (6) over a 4-letter alphabet at the wrap, used runs of "
                "length 0..5 in front of the cursor, random histories; seid: every draw cycle of length <= 4 over {0,1,2} with retry budgets 1..3 x 4 "
                "scripts, constant / period-2 / R-1, R, R+1 bad draws with the source's maxRetries, random scripts; est: random and fixed establishment / "
                "deletion histories over 1..3 associations sharing one generator started near the wrap. non-trivial = at least one id was chosen "
